@@ -20,7 +20,7 @@ func init() {
 		Level:      "exploration",
 		Exhaustive: true,
 		Rule: "exhaustive: every pattern of length <=5 (thorough <=6) over {a,b,*,\\} x every string of length <=4 (thorough <=5) over the same alphabet, matched through policy.Like(\".\",p) + Policy.Match and compared with the reference glob (tokenise + DP); " +
-			"plus seeded random longer pairs with multi-byte characters, every non-string kind as subject, and patterns ending in a lone backslash offered to policy.Like and policy.FromIPLD. " +
+			"plus every pattern of <=4 (<=5) characters x every string of <=3 (<=4) characters over {a,é,*,\\} (a multi-byte character next to wildcards and escapes), seeded random longer pairs with multi-byte characters, every non-string kind as subject, and patterns ending in a lone backslash offered to policy.Like and policy.FromIPLD. " +
 			"non-trivial = pattern containing * or \\ and string containing * or \\ ; distinct = (pattern,string).",
 		Assumptions: []string{
 			"reference glob ref.GlobMatch (35 lines), self-tested against the repository's glob test table",
@@ -31,7 +31,7 @@ func init() {
 		MinEvals:    floor(400000, 7000000),
 		MinDistinct: floor(100000, 1000000),
 		RequiredCells: func(string) []string {
-			return []string{"pat*/str*", "pat\\/str\\", "pat*/str\\", "pat\\/str*", "lone-backslash/like", "lone-backslash/fromipld", "nonstring/int", "nonstring/bytes", "nonstring/list", "nonstring/map", "nonstring/null", "nonstring/bool", "nonstring/float", "random-long"}
+			return []string{"pat*/str*", "pat\\/str\\", "pat*/str\\", "pat\\/str*", "lone-backslash/like", "lone-backslash/fromipld", "nonstring/int", "nonstring/bytes", "nonstring/list", "nonstring/map", "nonstring/null", "nonstring/bool", "nonstring/float", "random-long", "multibyte-exhaustive"}
 		},
 		Replay: replayC13,
 	})
@@ -177,6 +177,24 @@ func runC13(w *mon.W) {
 		}
 	}
 
+	// the same exhaustively over an alphabet with a multi-byte character
+	mpats := allStrings4([]string{"a", "é", "*", `\`}, w.Pick(4, 5))
+	mstrs := allStrings4([]string{"a", "é", "*", `\`}, w.Pick(3, 4))
+	for i, pat := range mpats {
+		if !w.Mine(i) || !ref.GlobValid(pat) {
+			continue
+		}
+		pol, err := policy.Construct(policy.Like(".", pat))
+		if err != nil {
+			w.Violate("like/valid-pattern-rejected", fmt.Sprintf("policy.Like rejected valid pattern %q: %v", pat, err), map[string]any{"pattern": pat})
+			continue
+		}
+		for _, s := range mstrs {
+			c13Check(w, pat, pol, s)
+		}
+		w.Cover("multibyte-exhaustive")
+	}
+
 	// non-string subjects never match, whatever the pattern
 	subjects := map[string]ref.V{
 		"int": ref.Int(1), "bytes": ref.Bytes([]byte("a")), "list": ref.List(ref.Str("a")), "map": ref.Map(ref.E("a", ref.Str("a"))),
@@ -251,4 +269,20 @@ func replayC13(raw json.RawMessage) (string, bool, error) {
 	want, _ := ref.GlobMatch(c.Pattern, c.String)
 	got := c13Match(pol, c.String)
 	return fmt.Sprintf("pattern %q string %q: Match=%v model=%v", c.Pattern, c.String, got, want), got != want, nil
+}
+
+func allStrings4(alpha []string, maxLen int) []string {
+	out := []string{""}
+	prev := []string{""}
+	for n := 1; n <= maxLen; n++ {
+		var cur []string
+		for _, p := range prev {
+			for _, a := range alpha {
+				cur = append(cur, p+a)
+			}
+		}
+		out = append(out, cur...)
+		prev = cur
+	}
+	return out
 }
